@@ -252,7 +252,7 @@ def run(chk):
                 continue
             icases.append(("tdoc", [kind.encode(), t])); mcases.append(("cunmarshal", [kind.encode(), t]))
     impl = chk.run_impl(icases); model = chk.run_model(mcases)
-    chk.compare("mutated-documents", mcases, impl, model)
+    chk.compare("mutated-documents", mcases, impl, model, spec=False)
     chk.extra["schema_regenerated_changed"] = chk.schema_changed
     chk.assumptions += ["struct tags are regenerated from the compiled types on every run (schemadump) and the schema lemmas re-checked",
                         "field names that collide with the fields of nested struct types (Epoch, Revision, Relations, ABI, OS, CPU) are not generated: the decoder's nested-struct walk is not modelled",
